@@ -38,6 +38,8 @@ func gCheckCandidates(cs lang.Candidates, pos hcl.Pos) {
 		if r.End.Byte < pos.Byte {
 			verifAssert(verifBlankBetween("test.tf", r.End.Byte, pos.Byte), "C06:edit-reaches-cursor"+at)
 		}
+		// text forms: tab stops of the snippet are numbered from 1, consecutively, each once
+		verifCheckStops(verifSnippetStops(c.TextEdit.Snippet), 1, "candidate-snippet")
 	}
 }
 
